@@ -8,7 +8,8 @@ def treewf(p, props="C03", prefix="TreeWF"):
     # (derivable, hence not listed: a node occurs once per layer <= uniq_index; layer lists pairwise distinct <= depths+shape;
     #  child lists of distinct nodes distinct <= every child's parent pointer)
     names = ["shape", "root", "depths", "leaves", "kids", "up", "noalias_layer", "geom", "uniq_index"]
-    return [("%s.%s" % (prefix, n), "TW_%s(%s)" % (n, p), props) for n in names]
+    # the geometric clause (boxes, centre points) belongs to C02 / C01, not to the tree-consistency property C03
+    return [("%s.%s" % (prefix, n), "TW_%s(%s)" % (n, p), props if n != "geom" else props.replace("C03", "C02 C01")) for n in names]
 
 
 NODE_CLASSES = [None, "HOO_node", "HCT_node", "VHCT_node"]
@@ -153,23 +154,23 @@ def register(reg):
 
     # ------------------------------------------------------------------ KaryPartition / RandomKaryPartition
     kary_inv = [
-        ("len", "len(new_nodes) == i and fresh(new_nodes)"),
-        ("kids-fresh", "all(fresh(new_nodes[j]) and new_nodes[j] in new_nodes for j in range(i))"),
+        ("len", "len(new_nodes) == i and fresh(new_nodes)", "C01 C02 C03"),
+        ("kids-fresh", "all(fresh(new_nodes[j]) and new_nodes[j] in new_nodes for j in range(i))", "C03 C14"),
         ("kids-links", "all(new_nodes[j].parent is parent and new_nodes[j].depth == parent.depth + 1 "
                        "and new_nodes[j].index == self.K * parent.index - (self.K - j - 1) "
-                       "and new_nodes[j].children is None and NodeInit(new_nodes[j]) for j in range(i))"),
-        ("kids-kidx", "all(new_nodes[j].index == kidx(self.K, parent.index, j) for j in range(i))"),
+                       "and new_nodes[j].children is None and NodeInit(new_nodes[j]) for j in range(i))", "C03"),
+        ("kids-kidx", "all(new_nodes[j].index == kidx(self.K, parent.index, j) for j in range(i))", "C03"),
         ("kids-lists", "all(DomainFresh(new_nodes[j]) and len(new_nodes[j].domain) == len(parent_domain) "
-                       "and all(len(new_nodes[j].domain[d]) == 2 for d in range(len(parent_domain))) for j in range(i))"),
-        ("kids-centre", "all(IsCentre(new_nodes[j].c_point, new_nodes[j].domain) for j in range(i))"),
+                       "and all(len(new_nodes[j].domain[d]) == 2 for d in range(len(parent_domain))) for j in range(i))", "C01 C02 C14"),
+        ("kids-centre", "all(IsCentre(new_nodes[j].c_point, new_nodes[j].domain) for j in range(i))", "C02"),
         ("kids-other-dims", "all(implies(d != dim, new_nodes[j].domain[d][0] == parent_domain[d][0] "
                             "and new_nodes[j].domain[d][1] == parent_domain[d][1]) "
-                            "for j in range(i) for d in range(len(parent_domain)))"),
+                            "for j in range(i) for d in range(len(parent_domain)))", "C02 C16"),
     ]
     fn("KaryPartition.make_children", implements="Partition.make_children", props="C01 C02 C03 C14 C16",
        params=MC_PARAMS, locals={"new_nodes": "list[ref:$N]"},
        ensures=[CHAIN, EQUAL, KFRESH])
-    loop("KaryPartition.make_children", 0, props="C02 C03", var="i", modifies=["list(new_nodes)"],
+    loop("KaryPartition.make_children", 0, props="C02", var="i", modifies=["list(new_nodes)"],
          invariants=kary_inv + [
              ("kids-split", "all(new_nodes[j].domain[dim][0] == boundary_points[j] "
                             "and new_nodes[j].domain[dim][1] == boundary_points[j + 1] for j in range(i))"),
@@ -177,7 +178,7 @@ def register(reg):
     fn("RandomKaryPartition.make_children", implements="Partition.make_children", props="C01 C02 C03 C14 C16",
        params=MC_PARAMS, locals={"new_nodes": "list[ref:$N]"},
        ensures=[CHAIN, KFRESH])
-    loop("RandomKaryPartition.make_children", 0, props="C02 C03", var="i", modifies=["list(new_nodes)"],
+    loop("RandomKaryPartition.make_children", 0, props="C02", var="i", modifies=["list(new_nodes)"],
          invariants=kary_inv + [
              ("bp-range", "selected_dim[0] <= boundary_point_1 and boundary_point_1 <= selected_dim[1] "
                           "and selected_dim[0] <= boundary_point_0 and boundary_point_0 <= boundary_point_1"),
@@ -205,20 +206,20 @@ def register(reg):
          "fresh(cl[q]) and len(cl[q]) == 2 and fresh(cl[q][0]) and fresh(cl[q][1]) and len(cl[q][0]) == 2 and len(cl[q][1]) == 2 "
          "and cl[q][0][0] == dom[q][0] and cl[q][0][1] == (dom[q][0] + dom[q][1]) / 2 "
          "and cl[q][1][0] == (dom[q][0] + dom[q][1]) / 2 and cl[q][1][1] == dom[q][1]")
-    loop("DimensionBinaryPartition.make_children", 0, props="C02 C03", var="dim", modifies=["list(combination_list)"],
+    loop("DimensionBinaryPartition.make_children", 0, props="C02 C01", var="dim", modifies=["list(combination_list)"],
          invariants=[
              ("len", "len(combination_list) == dim and fresh(combination_list)"),
              ("combs", "all(CombOK(combination_list, parent_domain, q) for q in range(dim))"),
          ])
-    loop("DimensionBinaryPartition.make_children", 1, props="C02 C03", var="i", modifies=["list(children_list)"],
+    loop("DimensionBinaryPartition.make_children", 1, props="C02", var="i", modifies=["list(children_list)"],
          invariants=[
-             ("len", "len(children_list) == i and fresh(children_list)"),
+             ("len", "len(children_list) == i and fresh(children_list)", "C01 C02 C03"),
              ("combs", "len(combination_list) == len(parent_domain) and "
                        "all(CombOK(combination_list, parent_domain, q) for q in range(len(parent_domain)))"),
-             ("kids-fresh", "all(fresh(children_list[j]) and children_list[j] in children_list for j in range(i))"),
+             ("kids-fresh", "all(fresh(children_list[j]) and children_list[j] in children_list for j in range(i))", "C03 C14"),
              ("kids-links", "all(children_list[j].parent is parent and children_list[j].depth == parent.depth + 1 "
                             "and children_list[j].index == kidx(num_children, parent.index, j) "
-                            "and children_list[j].children is None and NodeInit(children_list[j]) for j in range(i))"),
+                            "and children_list[j].children is None and NodeInit(children_list[j]) for j in range(i))", "C03"),
              ("kids-lists", "all(fresh(children_list[j].domain) and fresh(children_list[j].c_point) "
                             "and len(children_list[j].domain) == len(parent_domain) for j in range(i))"),
              ("kids-halves", "all(children_list[j].domain[p] is combination_list[p][0] or "
@@ -226,7 +227,7 @@ def register(reg):
                              "for j in range(i) for p in range(len(parent_domain)))"),
              ("kids-centre", "all(IsCentre(children_list[j].c_point, children_list[j].domain) for j in range(i))"),
          ])
-    loop("DimensionBinaryPartition.make_children", 2, props="C02 C03", var="dim", modifies=["list(domain)"],
+    loop("DimensionBinaryPartition.make_children", 2, props="C02 C01", var="dim", modifies=["list(domain)"],
          invariants=[
              ("ind", "0 <= ind and ind < pow2(len(parent_domain) - dim)"),
              ("len", "len(domain) == dim and fresh(domain)"),
